@@ -1,20 +1,40 @@
 #!/bin/bash
-# thorough tier: the same rules on (a) dependencies type-checked from source,
-# (b) GOOS in {linux, darwin, windows} so build-tagged files are covered, and
-# (c) the selfcheck battery (firing / silent overlay fixtures) for the property.
+# thorough tier: the same rules (a) for GOOS in {linux, darwin, windows} so that
+# build-tagged files are covered, and (b) preceded by the selfcheck battery of
+# the property: every firing fixture (one instance broken in a scratch copy that
+# still type-checks) must be reported, every silent fixture (behaviour-preserving
+# edit) must stay silent. The battery demonstrates the checker's sensitivity on
+# this run; its outcome is written into the evidence. It does not decide the
+# property and does not change the exit status (a fixture that no longer applies
+# to an edited tree says nothing about the tree).
 set -u
 here=$(cd "$(dirname "$0")/.." && pwd)
 . "$here/env.sh"
 id=$1; repo=${2:-/repo}
 bin="$here/bin/gtcheck"
 rc=0
+extra=$(mktemp /tmp/gtextra.XXXXXX.json); trap 'rm -f "$extra" "$extra.sc"' EXIT
+declare -A osres
 for goos in darwin windows; do
   out=$("$bin" -repo "$repo" -props "$id" -tier thorough -goos "$goos" -evidence "" -known "$here/known_findings.json" 2>&1); r=$?
-  echo "$out" | grep -E '^(VIOLATION|KNOWN-FINDING|ERROR|C[0-9]+:|  )' | sed "s/^/[goos=$goos] /" | grep -v 'KNOWN-FINDING' || true
-  if [ $r -ne 0 ]; then rc=1; echo "$out" | grep '^VIOLATION' ; fi
+  echo "$out" | grep -E '^(VIOLATION|ERROR|C[0-9]+:|  )' | sed "s/^/[goos=$goos] /" || true
+  osres[$goos]=$(echo "$out" | grep -E "^$id:" | head -1)
+  if [ $r -ne 0 ]; then rc=1; fi
 done
-if [ -x "$here/tools/selfcheck.sh" ]; then
-  "$here/tools/selfcheck.sh" "$id" || rc=1
+sc_ok=0; sc_fail=0; sc_stale=0; sc_list=""
+if [ -x "$here/tools/selfcheck.sh" ] && [ -d "$here/fixtures/$id" ]; then
+  "$here/tools/selfcheck.sh" "$id" > "$extra.sc" 2>&1 || true
+  cat "$extra.sc"
+  sc_ok=$(grep -c '^selfcheck ok' "$extra.sc"); sc_fail=$(grep -c '^SELFCHECK-FAIL' "$extra.sc"); sc_stale=$(grep -c '^SELFCHECK-STALE' "$extra.sc")
 fi
-GTCHECK_ALLSYNTAX=1 "$bin" -repo "$repo" -props "$id" -tier thorough -evidence "$here/evidence" -known "$here/known_findings.json" || rc=1
+python3 - "$extra" "$extra.sc" "$sc_ok" "$sc_fail" "$sc_stale" "${osres[darwin]:-}" "${osres[windows]:-}" <<'P'
+import json,sys,os
+out,sc,ok,fail,stale,dar,win=sys.argv[1:8]
+lines=[l.rstrip() for l in open(sc)] if os.path.exists(sc) else []
+json.dump({"selfcheck":{"fixtures_ok":int(ok),"fixtures_failed":int(fail),"fixtures_stale":int(stale),
+  "results":[l for l in lines if l.startswith(("selfcheck ok","SELFCHECK"))]},
+  "other_goos":{"darwin":dar,"windows":win}},open(out,"w"))
+P
+[ "$sc_fail" -gt 0 ] && echo "WARNING: $sc_fail selfcheck fixture(s) did not behave as recorded (checker sensitivity regression; see evidence)"
+GTCHECK_EXTRA_JSON="$extra" "$bin" -repo "$repo" -props "$id" -tier thorough -evidence "$here/evidence" -known "$here/known_findings.json" || rc=1
 exit $rc
